@@ -733,10 +733,14 @@ void do_trigger(int ev, int nested)
         if (!nested) api_enter();
         int keepf = W.mutex_faults;
         if (mon_trigger_ambiguous()) W.mutex_faults = 0;   /* a masked return value would leave the outcome undetermined */
-        cat_status s = cat_trigger_unsolicited_event(I.obj, &I.cmds[W.ev[ev].cmd], W.ev[ev].type);
+        /* all three trigger entry points are exercised: the typed wrappers for even event indices, the generic one for odd */
+        cat_status s;
+        if (ev & 1) s = cat_trigger_unsolicited_event(I.obj, &I.cmds[W.ev[ev].cmd], W.ev[ev].type);
+        else if (W.ev[ev].type == CAT_CMD_TYPE_READ) s = cat_trigger_unsolicited_read(I.obj, &I.cmds[W.ev[ev].cmd]);
+        else s = cat_trigger_unsolicited_test(I.obj, &I.cmds[W.ev[ev].cmd]);
         I.last_ret = s;
         W.mutex_faults = keepf;
-        if (!nested) { if (api_leave("cat_trigger_unsolicited_event", s)) return; if (L.unlock_failed) s = CAT_STATUS_OK - 100; }
+        if (!nested) { if (api_leave("cat_trigger_unsolicited_*", s)) return; if (L.unlock_failed) s = CAT_STATUS_OK - 100; }
         else { L = keep; I.depth = kd; }
         if (s == CAT_STATUS_OK - 100) {
                 /* unlock failed: the return value is masked; the outcome is determined (see above), ask the specification */
